@@ -199,7 +199,7 @@ fn gen_op(r: &mut Rng, m: &Model, st: &mut Sched) -> Option<Op> {
 }
 
 fn drive<F: TagFrame>(src: &mut Source, obs: &mut Observer) -> Result<(), Violation> {
-    let end = src.cfg("src_len", -1, 400, |r| {
+    let end = src.cfg("src_len", -1, 20000, |r| {
         if r.chance(1, 2) {
             -1
         } else if r.chance(1, 3) {
@@ -211,7 +211,7 @@ fn drive<F: TagFrame>(src: &mut Source, obs: &mut Observer) -> Result<(), Violat
     let end = if end < 0 { None } else { Some(end as u64) };
     let mut st = Sched {
         policy: src.cfg("policy", 0, 4, |r| r.range(0, 4)),
-        steps: src.cfg("steps", 0, 160, |r| r.range(1, 160)) as usize,
+        steps: src.cfg("steps", 0, 3000, |r| if r.chance(1, 50) { r.range(800, 3000) } else { r.range(1, 160) }) as usize,
         done: 0,
         max_out: src.cfg("max_outputs", 1, SLOTS as i64, |r| match r.below(4) {
             0 => 1,
@@ -434,7 +434,7 @@ impl Scenario for BusScenario {
     }
     fn runs(&self, tier: &str) -> u64 {
         if tier == "quick" {
-            600_000
+            1_500_000
         } else {
             60_000_000
         }
